@@ -746,6 +746,13 @@ func ReplayMain(path, self string) int {
 	}
 	p := Get(r.Property)
 	if p == nil {
+		want := filepath.Join(filepath.Dir(self), "vcheck-ov")
+		if _, err := os.Stat(want); err == nil && self != want {
+			cmd := exec.Command(want, "replay", path)
+			cmd.Stdout, cmd.Stderr = os.Stdout, os.Stderr
+			_ = cmd.Run()
+			return cmd.ProcessState.ExitCode()
+		}
 		fmt.Println("unknown property", r.Property)
 		return 2
 	}
